@@ -113,8 +113,33 @@ def harvest(source_files: dict[str, str], python_version=None):
         paths.append(str(p))
     orig = rmain.load_checks
     rmain.load_checks = lambda settings: checks
+    skipped: list[str] = []
     try:
-        out = rmain.run_refurb(Settings(files=paths, quiet=True, python_version=python_version))
+        out = _run_tolerant(rmain, Settings, paths, python_version, skipped)
     finally:
         rmain.load_checks = orig
+    harvest.skipped = skipped            # statements mypy itself cannot analyse (its INTERNAL ERROR), removed from the programs
     return found, [e for e in out if isinstance(e, str)], td
+
+
+def _run_tolerant(rmain, Settings, paths, python_version, skipped, depth=0):
+    """run_refurb, surviving mypy's own INTERNAL ERROR (it calls sys.exit(2)): the statement mypy
+    names is blanked out and the run repeated, so one bad generated statement does not lose a batch."""
+    import contextlib
+    import io
+    import re
+    from pathlib import Path
+    err = io.StringIO()
+    try:
+        with contextlib.redirect_stderr(err), contextlib.redirect_stdout(err):
+            return rmain.run_refurb(Settings(files=paths, quiet=True, python_version=python_version))
+    except SystemExit:
+        m = re.search(r"^(.*?):(\d+): error: INTERNAL ERROR", err.getvalue(), flags=re.M)
+        if not m or depth > 25:
+            raise
+        f, ln = Path(m.group(1)), int(m.group(2))
+        lines = f.read_text("utf8").split("\n")
+        skipped.append(lines[ln - 1])
+        lines[ln - 1] = "pass" if not lines[ln - 1].startswith((" ", "\t")) else lines[ln - 1][: len(lines[ln - 1]) - len(lines[ln - 1].lstrip())] + "pass"
+        f.write_text("\n".join(lines), "utf8")
+        return _run_tolerant(rmain, Settings, paths, python_version, skipped, depth + 1)
